@@ -1,6 +1,8 @@
 package props
 
 import (
+	"errors"
+	"bytes"
 	"encoding/base64"
 	"fmt"
 	"math/rand"
@@ -193,6 +195,44 @@ func C12(c *core.Ctx) {
 			}
 		}
 	}
+	// (b') the random source fails for a while (the process is out of file descriptors, the entropy device errors):
+	// a Chunk() call during the outage fails one way or another (uuid.New panics), but no message may end up with
+	// an id that was not drawn from the source: when the source is back every message gets its own fresh id, and
+	// messages that went through the outage do not share one
+	for _, mode := range []string{"message", "message_ext", "forward", "packed"} {
+		fr := &failingRand{}
+		uuid.SetRand(fr)
+		// drain the pool uuid still holds from the previous source
+		for i := 0; i < 20; i++ {
+			safely(func() { uuid.New() })
+		}
+		fr.fail = true
+		var through []protocol.ChunkEncoder
+		for k := 0; k < 3; k++ {
+			m := chunkable(mode, nil)
+			safely(func() { _, _ = m.Chunk() })
+			through = append(through, m)
+		}
+		fr.fail = false
+		ids := map[string]bool{}
+		for _, m := range append(through, chunkable(mode, nil), chunkable(mode, nil)) {
+			var id string
+			var err error
+			if p := safely(func() { id, err = m.Chunk() }); p != nil || err != nil || id == "" {
+				c.Violation("judge-go", "c12-after-outage", fmt.Sprintf("Chunk() fails once the random source works again (%s): %v %v", mode, p, err), nil)
+				continue
+			}
+			if ids[id] {
+				c.Violation("judge-go", "c12-duplicate", "two messages carry the same chunk id after an outage of the random source ("+mode+")", map[string]string{"id": id})
+			}
+			ids[id] = true
+			if raw, derr := base64.StdEncoding.DecodeString(id); derr != nil || len(raw) != 16 || bytes.Equal(raw, make([]byte, 16)) || !fr.handedOut(raw) {
+				c.Violation("judge-go", "c12-not-drawn", "a chunk id that was not drawn from the random source ("+mode+")", map[string]string{"id": id})
+			}
+		}
+		c.Eval()
+		c.Hist("random source outage " + mode)
+	}
 	// (c) the real random source: no duplicates among many ids from 16 goroutines
 	uuid.SetRand(nil)
 	{
@@ -230,4 +270,46 @@ func C12(c *core.Ctx) {
 			c.Violation("judge-go", "c12-duplicate", fmt.Sprintf("%d ids from 16 goroutines contain duplicates (%d distinct)", workers*per, len(all)), nil)
 		}
 	}
+}
+
+// failingRand: a random source that can be switched to failing; it remembers every 16-byte window it handed out.
+type failingRand struct {
+	fail bool
+	n    uint64
+	out  [][]byte
+	mu   sync.Mutex
+}
+
+func (f *failingRand) Read(b []byte) (int, error) {
+	f.mu.Lock()
+	defer f.mu.Unlock()
+	if f.fail {
+		return 0, errors.New("fake: random source unavailable")
+	}
+	for i := range b {
+		f.n = f.n*6364136223846793005 + 1442695040888963407
+		b[i] = byte(f.n >> 56)
+	}
+	f.out = append(f.out, append([]byte{}, b...))
+	return len(b), nil
+}
+
+// handedOut: is id (with the version/variant bits masked) a 16-byte window of what the source produced?
+func (f *failingRand) handedOut(id []byte) bool {
+	f.mu.Lock()
+	defer f.mu.Unlock()
+	mask := func(w []byte) []byte {
+		x := append([]byte{}, w...)
+		x[6] = x[6]&0x0f | 0x40
+		x[8] = x[8]&0x3f | 0x80
+		return x
+	}
+	for _, chunk := range f.out {
+		for off := 0; off+16 <= len(chunk); off += 16 {
+			if bytes.Equal(mask(chunk[off:off+16]), id) {
+				return true
+			}
+		}
+	}
+	return false
 }
